@@ -3,6 +3,7 @@ import Model.FrameCrash
 import Model.RowsCrash
 import Model.Dispatch
 import Model.CrashValue
+import Model.PrepLife
 import Driver.Util
 namespace Driver.C05
 open Util
@@ -145,7 +146,11 @@ def step (_ : Unit) (ws : List String) : Unit × String :=
              -- val <proto> <type> <dest> <hex|nil|->: Model/CrashValue.lean
              match CrashValue.answer ws with
              | some a => a
-             | none => "bad-op")
+             | none =>
+               -- seq / seqinv <callers> <steps..>: Model/PrepLife.lean (prepared-statement cache life cycle)
+               match PrepLife.answer ws with
+               | some a => a
+               | none => "bad-op")
 
 def init : Unit := ()
 end Driver.C05
